@@ -231,47 +231,116 @@ Qed.
 Lemma absorb_mode_neq n : absorb_mode n <> n.
 Proof. unfold absorb_mode. destruct (Z.eqb_spec n 0); lia. Qed.
 
+(* --- the column-count agreement check --- *)
+
+Lemma np_unique_const (l : vec) c : (forall x, In x l -> x = c) -> np_unique l = [] \/ np_unique l = [c].
+Proof.
+  induction l as [|x l IH]; intros H; [left; reflexivity|]. right.
+  assert (x = c) by (apply H; left; reflexivity). subst x.
+  change (np_unique (c :: l)) with (ins_uniq c (np_unique l)).
+  destruct IH as [E|E]; [intros y Hy; apply H; right; exact Hy| |]; rewrite E; cbn [ins_uniq]; [reflexivity|].
+  rewrite Z.ltb_irrefl, Z.eqb_refl. reflexivity.
+Qed.
+
+Lemma in_others i n ndims : In i (others n ndims) <-> 0 <= i < ndims /\ i <> n.
+Proof.
+  unfold others. rewrite filter_In, in_np_arange. split.
+  - intros [H1 H2]. split; [exact H1|]. apply negb_true_iff, Z.eqb_neq in H2. exact H2.
+  - intros [H1 H2]. split; [exact H1|]. apply negb_true_iff, Z.eqb_neq. exact H2.
+Qed.
+
+Lemma accept_factors_ok (l : list mat) (n : Z) (c : Z) :
+  0 <= n < zlen l -> (forall i, 0 <= i < zlen l -> i <> n -> np_ncols (znth [] l i) = c) ->
+  accept_factors l n (zlen l) = Ok l.
+Proof.
+  intros Hn Hc. unfold accept_factors. rewrite Z.eqb_refl.
+  assert (En : (0 <=? n) && (n <? zlen l) = true) by (apply andb_true_intro; split; [apply Z.leb_le|apply Z.ltb_lt]; lia).
+  rewrite En. cbn [andb].
+  assert (E1 : forallb (fun i => idx_ok l i) (others n (zlen l)) = true).
+  { apply forallb_forall. intros i Hi. apply in_others in Hi as [Hi _]. apply idx_ok_range. exact Hi. }
+  rewrite E1. unfold cols_agree.
+  destruct (np_unique_const (map (fun i => np_ncols (znth [] l i)) (others n (zlen l))) c) as [E|E].
+  - intros x Hx. apply in_map_iff in Hx as (i & <- & Hi). apply in_others in Hi as [Hi1 Hi2]. apply Hc; assumption.
+  - rewrite E. reflexivity.
+  - rewrite E. reflexivity.
+Qed.
+
+(* two factors other than the skipped one with different column counts: rejected *)
+Lemma np_unique_two (l : vec) x y : In x l -> In y l -> x <> y -> zlen (np_unique l) >? 1 = true.
+Proof.
+  intros Hx Hy Hne. apply np_unique_in in Hx. apply np_unique_in in Hy.
+  destruct (np_unique l) as [|a [|b r]] eqn:E.
+  - destruct Hx.
+  - destruct Hx as [<-|[]]. destruct Hy as [<-|[]]. congruence.
+  - unfold zlen. cbn [length]. apply Z.gtb_lt. lia.
+Qed.
+
+Theorem mttkrp_factors_rejects_columns (l : list mat) (n i j : Z) :
+  0 <= i < zlen l -> 0 <= j < zlen l -> i <> n -> j <> n -> np_ncols (znth [] l i) <> np_ncols (znth [] l j) ->
+  get_mttkrp_factors (USeq l) n (zlen l) = Err.
+Proof.
+  intros Hi Hj Hin Hjn Hne. rewrite get_mttkrp_factors_bridge. cbn [H_mttkrp_factors]. unfold accept_factors.
+  destruct ((zlen l =? zlen l) && ((0 <=? n) && (n <? zlen l))); [|reflexivity].
+  destruct (forallb _ _); [|reflexivity]. unfold cols_agree.
+  rewrite (np_unique_two _ (np_ncols (znth [] l i)) (np_ncols (znth [] l j))); [reflexivity| | |exact Hne].
+  - apply in_map_iff. exists i. split; [reflexivity|]. apply in_others. split; assumption.
+  - apply in_map_iff. exists j. split; [reflexivity|]. apply in_others. split; assumption.
+Qed.
+
 Definition scale_cols (w : vec) (m : mat) : mat := map (fun row => zmap2 Z.mul row w) m.
 
-(* a ktensor: the weights are absorbed into mode 1 when n = 0 and into mode 0 otherwise — never into the skipped
-   mode n; every other factor (in particular factor n) is returned as it is *)
+Lemma zmap2_zlen (a b : vec) : zlen a = zlen b -> zlen (zmap2 Z.mul a b) = zlen a.
+Proof.
+  unfold zlen. revert b. induction a as [|x a IH]; intros [|y b] H; cbn [length zmap2] in *; try lia.
+  rewrite !Nat2Z.inj_succ in *. rewrite IH by lia. reflexivity.
+Qed.
+
+(* a well-formed ktensor (every factor has at least one row and one entry per weight in every row): the weights are absorbed
+   into mode 1 when n = 0 and into mode 0 otherwise — never into the skipped mode n; every other factor (in particular
+   factor n) is returned as it is *)
 Theorem mttkrp_factors_kt (k : ktz) (n : Z) :
+  (forall F, In F (kt_factors k) -> F <> [] /\ forall row, In row F -> zlen row = zlen (kt_weights k)) ->
   2 <= zlen (kt_factors k) -> 0 <= n < zlen (kt_factors k) ->
   exists fs, get_mttkrp_factors (UKt k) n (zlen (kt_factors k)) = Ok fs /\ zlen fs = zlen (kt_factors k) /\
     znth [] fs (absorb_mode n) = scale_cols (kt_weights k) (znth [] (kt_factors k) (absorb_mode n)) /\
     (forall m, 0 <= m < zlen (kt_factors k) -> m <> absorb_mode n -> znth [] fs m = znth [] (kt_factors k) m) /\
     znth [] fs n = znth [] (kt_factors k) n.
 Proof.
-  intros HN Hn. rewrite get_mttkrp_factors_bridge. unfold H_mttkrp_factors.
+  intros Hwf HN Hn. rewrite get_mttkrp_factors_bridge. unfold H_mttkrp_factors.
   assert (Hj : 0 <= absorb_mode n < zlen (kt_factors k)) by (unfold absorb_mode; destruct (n =? 0); lia).
   assert (Eok : kt_redistribute_ok k (absorb_mode n) = true).
   { unfold kt_redistribute_ok. apply andb_true_intro. split; [apply Z.leb_le|apply Z.ltb_lt]; lia. }
   rewrite Eok. unfold kt_redistribute. cbn [kt_factors].
   rewrite np_set_nonneg by lia.
-  assert (Hlen : zlen (upd (kt_factors k) (Z.to_nat (absorb_mode n))
-                     (map (fun row => zmap2 Z.mul row (kt_weights k)) (znth [] (kt_factors k) (absorb_mode n)))) = zlen (kt_factors k)).
-  { unfold zlen. rewrite upd_length. reflexivity. }
-  rewrite Hlen, Z.eqb_refl.
-  assert (En : (0 <=? n) && (n <? zlen (kt_factors k)) = true).
-  { apply andb_true_intro. split; [apply Z.leb_le|apply Z.ltb_lt]; lia. }
-  rewrite En. cbn [andb]. eexists. split; [reflexivity|]. split; [exact Hlen|].
-  assert (Hother : forall m, 0 <= m < zlen (kt_factors k) -> m <> absorb_mode n ->
-            znth [] (upd (kt_factors k) (Z.to_nat (absorb_mode n))
-                     (map (fun row => zmap2 Z.mul row (kt_weights k)) (znth [] (kt_factors k) (absorb_mode n)))) m
-            = znth [] (kt_factors k) m).
-  { intros m Hm Hne. rewrite !znth_nonneg by lia. apply upd_nth_other. intros E. apply Hne. apply Z2Nat.inj in E; lia. }
-  split; [|split; [exact Hother|apply Hother; [exact Hn|apply not_eq_sym, absorb_mode_neq]]].
+  set (fs' := upd (kt_factors k) (Z.to_nat (absorb_mode n))
+                (map (fun row => zmap2 Z.mul row (kt_weights k)) (znth [] (kt_factors k) (absorb_mode n)))).
+  assert (Hlen : zlen fs' = zlen (kt_factors k)) by (unfold fs', zlen; rewrite upd_length; reflexivity).
+  assert (Hother : forall m, 0 <= m < zlen (kt_factors k) -> m <> absorb_mode n -> znth [] fs' m = znth [] (kt_factors k) m).
+  { intros m Hm Hne. unfold fs'. rewrite !znth_nonneg by lia. apply upd_nth_other. intros E. apply Hne. apply Z2Nat.inj in E; lia. }
   assert (Hlt : (Z.to_nat (absorb_mode n) < length (kt_factors k))%nat).
   { destruct Hj as [Hj0 Hj1]. unfold zlen in Hj1. apply Nat2Z.inj_lt. rewrite Z2Nat.id by exact Hj0. exact Hj1. }
-  destruct Hj as [Hj0 _]. rewrite (znth_nonneg [] _ _ Hj0). rewrite upd_nth_same by exact Hlt. reflexivity.
+  assert (Hself : znth [] fs' (absorb_mode n) = scale_cols (kt_weights k) (znth [] (kt_factors k) (absorb_mode n))).
+  { destruct Hj as [Hj0 _]. unfold fs'. rewrite (znth_nonneg [] _ _ Hj0). rewrite upd_nth_same by exact Hlt. reflexivity. }
+  assert (Hin : forall m, 0 <= m < zlen (kt_factors k) -> In (znth [] (kt_factors k) m) (kt_factors k)).
+  { intros m [Hm0 Hm1]. rewrite (znth_nonneg [] _ _ Hm0). apply nth_In. unfold zlen in Hm1. apply Nat2Z.inj_lt. rewrite Z2Nat.id by exact Hm0. exact Hm1. }
+  assert (Hcols : forall m, 0 <= m < zlen fs' -> m <> n -> np_ncols (znth [] fs' m) = zlen (kt_weights k)).
+  { intros m Hm _. rewrite Hlen in Hm. destruct (Z.eq_dec m (absorb_mode n)) as [->|Hne].
+    - rewrite Hself. destruct (Hwf _ (Hin _ Hj)) as [Hne' Hrows].
+      destruct (znth [] (kt_factors k) (absorb_mode n)) as [|row F]; [congruence|].
+      cbn [scale_cols map np_ncols]. rewrite zmap2_zlen; apply Hrows; left; reflexivity.
+    - rewrite (Hother m Hm Hne). destruct (Hwf _ (Hin _ Hm)) as [Hne' Hrows].
+      destruct (znth [] (kt_factors k) m) as [|row F]; [congruence|]. cbn [np_ncols]. apply Hrows. left. reflexivity. }
+  rewrite <- Hlen. rewrite (accept_factors_ok fs' n (zlen (kt_weights k))); [|rewrite Hlen; exact Hn|exact Hcols].
+  exists fs'. split; [reflexivity|]. split; [reflexivity|]. split; [exact Hself|]. split; [rewrite Hlen; exact Hother|].
+  apply Hother; [exact Hn|apply not_eq_sym, absorb_mode_neq].
 Qed.
 
-(* a list of matrices is returned as it is *)
-Theorem mttkrp_factors_seq (l : list mat) (n : Z) : 0 <= n < zlen l -> get_mttkrp_factors (USeq l) n (zlen l) = Ok l.
+(* a list of matrices whose factors other than the skipped one have one common column count is returned as it is *)
+Theorem mttkrp_factors_seq (l : list mat) (n c : Z) :
+  0 <= n < zlen l -> (forall i, 0 <= i < zlen l -> i <> n -> np_ncols (znth [] l i) = c) ->
+  get_mttkrp_factors (USeq l) n (zlen l) = Ok l.
 Proof.
-  intros Hn. rewrite get_mttkrp_factors_bridge. unfold H_mttkrp_factors. rewrite Z.eqb_refl.
-  assert (En : (0 <=? n) && (n <? zlen l) = true) by (apply andb_true_intro; split; [apply Z.leb_le|apply Z.ltb_lt]; lia).
-  rewrite En. reflexivity.
+  intros Hn Hc. rewrite get_mttkrp_factors_bridge. cbn [H_mttkrp_factors]. apply (accept_factors_ok l n c Hn Hc).
 Qed.
 
 (* rejected: a mode outside [0, ndims) or a factor count different from ndims (both argument kinds) *)
@@ -281,14 +350,17 @@ Theorem mttkrp_factors_rejects (U : kt_or_seq) (n ndims : Z) :
 Proof.
   intros H. rewrite get_mttkrp_factors_bridge. unfold H_mttkrp_factors.
   assert (E : forall fs : list mat, zlen fs = zlen (match U with UKt k => kt_factors k | USeq l => l end) ->
-              (zlen fs =? ndims) && ((0 <=? n) && (n <? ndims)) = false).
-  { intros fs Hfs. destruct H as [H|H].
-    - apply andb_false_intro2. destruct (Z.leb_spec 0 n); cbn [andb]; [|reflexivity]. apply Z.ltb_ge. lia.
-    - apply andb_false_intro1. apply Z.eqb_neq. lia. }
+              accept_factors fs n ndims = Err).
+  { intros fs Hfs. unfold accept_factors.
+    assert (E0 : (zlen fs =? ndims) && ((0 <=? n) && (n <? ndims)) = false).
+    { destruct H as [H|H].
+      - apply andb_false_intro2. destruct (Z.leb_spec 0 n); cbn [andb]; [|reflexivity]. apply Z.ltb_ge. lia.
+      - apply andb_false_intro1. apply Z.eqb_neq. lia. }
+    rewrite E0. reflexivity. }
   destruct U as [k|l].
   - destruct (kt_redistribute_ok k (absorb_mode n)) eqn:Eok; [|reflexivity].
-    rewrite E; [reflexivity|]. unfold kt_redistribute. cbn [kt_factors]. unfold np_set, zlen. rewrite upd_length. reflexivity.
-  - rewrite E; reflexivity.
+    apply E. unfold kt_redistribute. cbn [kt_factors]. unfold np_set, zlen. rewrite upd_length. reflexivity.
+  - apply E. reflexivity.
 Qed.
 
 (* a one-mode ktensor has no factor other than the skipped one to take the weights: rejected *)
